@@ -41,6 +41,11 @@ pub struct Seg {
     /// in between; UDP arm: 4 = an empty datagram precedes this one)
     #[serde(default)]
     pub ctl: u8,
+    /// transient read error: 1 = one read call fails with ErrorKind::Interrupted
+    /// before this chunk arrives; the connection itself goes on (a reader may
+    /// give up there or try again - it must not hand on anything wrong)
+    #[serde(default)]
+    pub err: u8,
 }
 
 #[derive(Clone, Debug, Serialize, Deserialize, PartialEq)]
@@ -49,7 +54,8 @@ pub enum End {
     Open,
     /// peer closes: read returns Ok(0)
     Eof,
-    /// read fails: 0 = ConnectionReset, 1 = TimedOut, 2 = Interrupted, 3 = BrokenPipe
+    /// read fails for good: 0 = ConnectionReset, 1 = TimedOut, 2 = ConnectionAborted, 3 = BrokenPipe
+    /// (never Interrupted: that kind is transient by definition, see Seg::err)
     Reset(u8),
 }
 
@@ -62,6 +68,7 @@ pub struct PipeStats {
     pub big_reads: u64,
     pub ended: bool,
     pub all_delivered: bool,
+    pub transient_errors: u64,
 }
 
 pub struct SimPipe {
@@ -73,6 +80,7 @@ pub struct SimPipe {
     cur_cap: usize,
     ready_at: u64,
     spurious_pending: bool,
+    err_pending: bool,
     end: End,
     pub stats: Arc<Mutex<PipeStats>>,
 }
@@ -88,6 +96,7 @@ impl SimPipe {
             cur_cap: 0,
             ready_at: 0,
             spurious_pending: false,
+            err_pending: false,
             end,
             stats: Arc::new(Mutex::new(PipeStats::default())),
         }
@@ -122,7 +131,7 @@ impl AsyncRead for SimPipe {
                         let kind = match k {
                             0 => std::io::ErrorKind::ConnectionReset,
                             1 => std::io::ErrorKind::TimedOut,
-                            2 => std::io::ErrorKind::Interrupted,
+                            2 => std::io::ErrorKind::ConnectionAborted,
                             _ => std::io::ErrorKind::BrokenPipe,
                         };
                         Poll::Ready(Err(std::io::Error::new(kind, "simulated")))
@@ -135,9 +144,17 @@ impl AsyncRead for SimPipe {
             this.cur_cap = seg.read_cap;
             this.ready_at = exec::now_ns() + seg.delay_ns;
             this.spurious_pending = seg.spurious;
+            this.err_pending = seg.err == 1;
             if seg.delay_ns > 0 {
                 this.stats.lock().unwrap().stalls += 1;
             }
+        }
+        if this.err_pending {
+            // this read call fails; the next one finds the connection as it was
+            this.err_pending = false;
+            this.stats.lock().unwrap().transient_errors += 1;
+            exec::log_u64(0xE177);
+            return Poll::Ready(Err(std::io::Error::new(std::io::ErrorKind::Interrupted, "simulated: interrupted")));
         }
         if exec::now_ns() < this.ready_at {
             if this.spurious_pending {
@@ -181,6 +198,7 @@ pub struct SimDatagrams {
     seg_i: usize,
     ready_at: Option<u64>,
     empty_sent: bool,
+    err_sent: bool,
     end: End,
     pub stats: Arc<Mutex<PipeStats>>,
 }
@@ -210,6 +228,13 @@ impl futures_util::stream::Stream for SimDatagrams {
             exec::wake_at(at, cx.waker().clone());
             return Poll::Pending;
         }
+        if seg.err == 1 && !this.err_sent {
+            // one receive call fails; the socket is as it was
+            this.err_sent = true;
+            this.stats.lock().unwrap().transient_errors += 1;
+            exec::log_u64(0xE177);
+            return Poll::Ready(Some(Err(std::io::Error::new(std::io::ErrorKind::Interrupted, "simulated: interrupted"))));
+        }
         if seg.ctl == 4 && !this.empty_sent {
             // a datagram without payload comes first
             this.empty_sent = true;
@@ -217,6 +242,7 @@ impl futures_util::stream::Stream for SimDatagrams {
             return Poll::Ready(Some(Ok(Vec::new())));
         }
         this.empty_sent = false;
+        this.err_sent = false;
         this.ready_at = None;
         this.seg_i += 1;
         let n = seg.len.min(this.data.len() - this.pos);
@@ -283,7 +309,7 @@ fn websocket_wire(data: &[u8], segs: &[Seg]) -> (Vec<u8>, Vec<Seg>) {
             frame(&mut wire, 0x82, msg);
         }
         pos += n;
-        out.push(Seg { len: wire.len() - start, delay_ns: s.delay_ns, spurious: s.spurious, read_cap: s.read_cap, ctl: 0 });
+        out.push(Seg { len: wire.len() - start, delay_ns: s.delay_ns, spurious: s.spurious, read_cap: s.read_cap, ctl: 0, err: 0 });
     }
     (wire, out)
 }
@@ -304,7 +330,7 @@ async fn open_source(transport: u8, wire: Arc<Vec<u8>>, segs: Vec<Seg>, end: End
         2 => {
             let stats = Arc::new(Mutex::new(PipeStats::default()));
             *stats_out.borrow_mut() = Some(stats.clone());
-            let d = SimDatagrams { data: wire, pos: 0, segs, seg_i: 0, ready_at: None, empty_sent: false, end, stats };
+            let d = SimDatagrams { data: wire, pos: 0, segs, seg_i: 0, ready_at: None, empty_sent: false, err_sent: false, end, stats };
             verif_net::register(SIM_ADDR, Peer::Udp(Box::pin(d)));
             DataSource::Udp(verif_net::UdpSocket::bind(SIM_ADDR).await.expect("simulated bind"))
         }
@@ -337,7 +363,7 @@ fn datagram_sized(segs: &[Seg], max: usize) -> Vec<Seg> {
         let mut first = true;
         while left > 0 {
             let n = left.min(max);
-            out.push(Seg { len: n, delay_ns: if first { s.delay_ns } else { 0 }, spurious: false, read_cap: 0, ctl: if first { s.ctl } else { 0 } });
+            out.push(Seg { len: n, delay_ns: if first { s.delay_ns } else { 0 }, spurious: false, read_cap: 0, ctl: if first { s.ctl } else { 0 }, err: if first { s.err } else { 0 } });
             first = false;
             left -= n;
         }
@@ -701,12 +727,12 @@ fn segs_from_cuts(total: usize, cuts: &[usize]) -> Vec<Seg> {
     let mut prev = 0;
     for &c in cuts {
         if c > prev && c < total {
-            segs.push(Seg { len: c - prev, delay_ns: 0, spurious: false, read_cap: 0, ctl: 0 });
+            segs.push(Seg { len: c - prev, delay_ns: 0, spurious: false, read_cap: 0, ctl: 0, err: 0 });
             prev = c;
         }
     }
     if total > prev {
-        segs.push(Seg { len: total - prev, delay_ns: 0, spurious: false, read_cap: 0, ctl: 0 });
+        segs.push(Seg { len: total - prev, delay_ns: 0, spurious: false, read_cap: 0, ctl: 0, err: 0 });
     }
     segs
 }
@@ -720,10 +746,10 @@ fn random_segs(rng: &mut Rng, total: usize) -> Vec<Seg> {
         // remainder comes first, so that the last read is a full one
         let first = total % 1024;
         if first > 0 {
-            segs.push(Seg { len: first, delay_ns: 0, spurious: false, read_cap: 0, ctl: 0 });
+            segs.push(Seg { len: first, delay_ns: 0, spurious: false, read_cap: 0, ctl: 0, err: 0 });
         }
         for _ in 0..total / 1024 {
-            segs.push(Seg { len: 1024, delay_ns: if rng.chance(0.3) { 1_000_000 } else { 0 }, spurious: false, read_cap: 0, ctl: 0 });
+            segs.push(Seg { len: 1024, delay_ns: if rng.chance(0.3) { 1_000_000 } else { 0 }, spurious: false, read_cap: 0, ctl: 0, err: 0 });
         }
         return segs;
     }
@@ -748,6 +774,7 @@ fn random_segs(rng: &mut Rng, total: usize) -> Vec<Seg> {
             spurious: delay_ns > 0 && rng.chance(0.4),
             read_cap: if rng.chance(0.1) { rng.usize(1, 40) } else { 0 },
             ctl: 0,
+            err: 0,
         });
         left -= len;
     }
@@ -877,7 +904,7 @@ fn one(
         sig.u64(s.len as u64);
         sig.u64(s.delay_ns);
         sig.u64(s.read_cap as u64 * 2 + s.spurious as u64);
-        sig.u64(s.ctl as u64);
+        sig.u64(s.ctl as u64 | (s.err as u64) << 8);
     }
     sig.u64(plan.dgram_max as u64);
     sig.u64(match end {
@@ -886,14 +913,27 @@ fn one(
         End::Reset(k) => 2 + k as u64,
     });
     t.sigs.push(sig.0);
-    let faulty = inside || end != End::Open || segs.iter().any(|s| s.delay_ns > 0 || s.read_cap > 0 || s.ctl > 0);
+    let faulty = inside || end != End::Open || segs.iter().any(|s| s.delay_ns > 0 || s.read_cap > 0 || s.ctl > 0 || s.err > 0);
     if faulty && !r.items.is_empty() {
         t.nontrivial.push(sig.0);
     }
     if r.stats.big_reads > 0 {
         t.count("read_ge_1024", r.stats.big_reads);
     }
-    judge(st, &r, Some(reference), k, &end).map(|v| {
+    if r.stats.transient_errors > 0 {
+        t.count("transient_read_error", r.stats.transient_errors);
+        t.count(if r.stream_ended { "reader_gave_up_at_transient_error" } else { "reader_went_on_after_transient_error" }, 1);
+    }
+    // A reader may give up at a transient read error (today's code) or try
+    // again: when it gave up, the run is judged like a connection that failed
+    // after the bytes it had been given; when it went on, like any other
+    // delivery (complete, and equal to the one-piece result).
+    let (k_eff, end_eff) = if r.stats.transient_errors > 0 && r.stream_ended {
+        (k.min(r.stats.bytes as usize), if end == End::Open { End::Reset(9) } else { end.clone() })
+    } else {
+        (k, end.clone())
+    };
+    judge(st, &r, Some(reference), k_eff, &end_eff).map(|v| {
         let mut p = plan.clone();
         p.mode = Mode::Explicit { segs, end };
         (v, p)
@@ -915,7 +955,7 @@ pub fn execute(plan: &C09Plan) -> Outcome<C09Plan> {
         log: Fnv::new(),
     };
     // reference execution: the whole stream in one piece (real code, not a model)
-    let whole = vec![Seg { len: total, delay_ns: 0, spurious: false, read_cap: 0, ctl: 0 }];
+    let whole = vec![Seg { len: total, delay_ns: 0, spurious: false, read_cap: 0, ctl: 0, err: 0 }];
     let refr = run_once(plan.transport, plan.dgram_max, &st.wire, &whole, &End::Open, &SchedSpec::fifo());
     t.evals += 1;
     let mut found: Option<(Violation, C09Plan)> = None;
@@ -945,6 +985,19 @@ pub fn execute(plan: &C09Plan) -> Outcome<C09Plan> {
                                     found = Some(f);
                                     break 'sweep;
                                 }
+                            }
+                        }
+                    }
+                    if *ends && plan.transport != 3 {
+                        // a transient read error at every offset (also before the first byte)
+                        for c in 0..total {
+                            let mut segs = if c == 0 { segs_from_cuts(total, &[]) } else { segs_from_cuts(total, &[c]) };
+                            if let Some(s) = segs.last_mut() {
+                                s.err = 1;
+                            }
+                            if let Some(f) = one(&st, plan, segs, End::Open, &reference, &mut t) {
+                                found = Some(f);
+                                break 'sweep;
                             }
                         }
                     }
@@ -983,6 +1036,13 @@ pub fn execute(plan: &C09Plan) -> Outcome<C09Plan> {
                             if rng.chance(0.1) {
                                 s.ctl = 4;
                             }
+                        }
+                    }
+                    if plan.transport != 3 && rng.chance(0.2) {
+                        // one read call that fails with Interrupted, the connection goes on
+                        let n = segs.len();
+                        if n > 0 {
+                            segs[rng.usize(0, n - 1)].err = 1;
                         }
                     }
                     let end = match rng.below(10) {
@@ -1271,7 +1331,7 @@ impl Scenario for C09 {
                 "pending frames are measured in un-escaped bytes against the 23-byte look-ahead",
                 "UDP: one datagram (up to the 65507 bytes a datagram can carry; the plan's dgram_max models the sender's path) is one chunk of the partition. Websocket: one binary message of any size is one chunk; pings, pongs, fragmentation and empty messages are transport-level events that carry no byte of the stream and leave the partition unchanged; text and close messages are not generated",
             ],
-            fault_kinds: vec!["cut", "dribble", "big", "stall", "spurious_wake", "short_read", "eof", "reset", "ws_ping", "ws_pong", "ws_fragmented", "ws_ping_between_fragments", "empty_message", "udp_datagram_gt_1024"],
+            fault_kinds: vec!["cut", "dribble", "big", "stall", "spurious_wake", "short_read", "eof", "reset", "ws_ping", "ws_pong", "ws_fragmented", "ws_ping_between_fragments", "empty_message", "udp_datagram_gt_1024", "transient_read_error"],
             probes: vec![
                 "cut_inside_escape_pair",
                 "cut_between_1a_and_type",
